@@ -313,12 +313,22 @@ def check_c30(A: Analysis, col: Collector):
             keyed = True
     cls = A.cls("pydra.compose.workflow.WorkflowTask")
     invalidates = cls.find_method("__setattr__") is not None or cls.find_method("__attrs_post_init__") is not None and False
+    # any other return of a value read back from the instance (getattr / attribute) that is
+    # not the fresh result of Workflow.construct on this path
+    if not memo_returns:
+        for n in walk_own(wc.node):
+            if isinstance(n, ast.Return) and n.value is not None:
+                v = n.value
+                from_self = (isinstance(v, ast.Attribute) and dotted(v.value) == "self") or (isinstance(v, ast.Call) and dotted(v.func) == "getattr" and v.args and norm(v.args[0]) == "self")
+                guarded = any(isinstance(p, ast.If) for p in parents(n) if is_within(p, wc.node))
+                if from_self and guarded:
+                    memo_returns.append(next(p for p in parents(n) if isinstance(p, ast.If)))
     if not memo_returns:
         col.ok("C30.task-memo", "WorkflowTask.construct returns no unkeyed per-instance memo (construction caching is left to Workflow.construct's keyed cache)", A.loc(wc.node))
     elif keyed or invalidates:
         col.ok("C30.task-memo", "WorkflowTask.construct's memo is keyed by the task's hash / invalidated on assignment", A.loc(wc.node))
     else:
-        col.fail("C30.task-memo", wc.qualname, "unkeyed-memo:" + norm(memo_returns[0].test.left), f"`{norm(memo_returns[0], 70)}`: the constructed workflow is memoised on the task instance without a key, while the task's inputs stay assignable: after `task.x = new` the next run re-uses the graph built for the old value and stores its result under the new checksum", A.loc(memo_returns[0]))
+        col.fail("C30.task-memo", wc.qualname, "unkeyed-memo", f"`{norm(memo_returns[0], 70)}`: the constructed workflow is memoised on the task instance without a key, while the task's inputs stay assignable: after `task.x = new` the next run re-uses the graph built for the old value and stores its result under the new checksum", A.loc(memo_returns[0]))
     wf = A.func("pydra.engine.workflow.Workflow.construct")
     col.scope(wf.qualname)
     src = {norm(n.targets[0]): n.value for n in walk_own(wf.node) if isinstance(n, ast.Assign) and isinstance(n.targets[0], ast.Name)}
